@@ -643,7 +643,9 @@ def unit_validate(ctx):
             if mode == 'invalid':   # other types are refused by the parameter update already (C17): set it behind its back
                 sim.diseases[0].pars.beta = (0.1, 0.2)
             bm = sim.diseases[0].validate_beta()
-            got = 'ok ' + ';'.join(f"{k}={','.join(enc(beta_float(x)) for x in v)}" for k, v in bm.items())
+            # a number given for `beta` becomes ss.beta(number): compare the value as given (the dt conversion is C06's)
+            base = lambda x: float(x.v) if isinstance(x, ss.TimePar) else float(x)
+            got = 'ok ' + ';'.join(f"{k}={','.join(enc(base(x)) for x in v)}" for k, v in bm.items())
         except ValueError as e:
             got = 'E:KeyMismatch' if 'do not match' in str(e) else f'E:Other({e})'
         except TypeError as e:
@@ -907,7 +909,7 @@ def raised(beta, variant, idx):
     import copy
     b = copy.deepcopy(beta)
     f = variant.get('factor', 2.0)
-    def up(x): return min(float(x) * f, 1.0)
+    def up(x): return min(beta_float(x) * f, 1.0)   # live per-step value (a number given as beta is held as ss.beta)
     if variant['kind'] == 'scale':
         if isinstance(b, dict):
             return {k: ([up(x) for x in v] if isinstance(v, (list, tuple)) else up(v)) for k, v in b.items()}
